@@ -11,6 +11,12 @@ impl Scalar {
         0, 0,
     ]);
 
+    /// The element 1 of the field
+    pub const ONE: Self = Scalar([
+        1, 0, 0, 0, 0, 0, 0, 0, 0, 0, 0, 0, 0, 0, 0, 0, 0, 0, 0, 0, 0, 0, 0, 0, 0, 0, 0, 0, 0, 0,
+        0, 0,
+    ]);
+
     /// Create a field element from its little endian representation (the highest bit is ignored)
     pub const fn from_bytes(bytes: &[u8; 32]) -> Self {
         Scalar(*bytes)
